@@ -461,6 +461,10 @@ def is_symbolic(v):
     return isinstance(v, Sym)
 
 
+class UndeterminedIsinstance(Exception):
+    """raised by TUnion.isinstance_; the engine turns it into OutOfSubset"""
+
+
 class TUnion(Ty):
     """Tagged union of alternatives: alts = [(tag, Ty or None, python classes an instance belongs to)]."""
 
@@ -502,6 +506,15 @@ class TUnion(Ty):
         for tag, ty, pyc in self.alts:
             if any(isinstance(c, type) and issubclass(p, c) for p in pyc for c in classes):
                 hits.append(self.is_tag(term, tag))
+                continue
+            # a catch-all alternative (class object / ast.AST ...) stands for "none of the more specific alternatives":
+            # asked about a class that only it could contain, the answer is not determined by the model
+            for p in pyc:
+                for c in classes:
+                    if isinstance(c, type) and issubclass(c, p) and c is not p:
+                        covered = any(issubclass(c, q) and q is not p and issubclass(q, p) for t2, _, pyc2 in self.alts if t2 != tag for q in pyc2)
+                        if not covered:
+                            raise UndeterminedIsinstance("isinstance(<%s value>, %s): the alternative '%s' may or may not be one" % (self.name, c.__name__, tag))
         if not hits:
             return False
         return hits[0] if len(hits) == 1 else _z.Or(*hits)
